@@ -157,3 +157,100 @@ def run(ctx):
                 ctx.report(f"MinFlowDecomp: option vector '{vn}' changes the result: reference (all optimisations off) {ref}, with options {got}",
                            {"instance": zoo.describe(info), "options": o, "reference_options": off, "reference": list(ref), "got": list(got)})
                 break
+
+    scan_windows(ctx, ctx.budget(90, 2500))
+
+
+def scan_instance(rng, big):
+    """a conserving flow on a random DAG with isolated nodes, ignore sets biased to whole topological stretches, and
+    (sometimes) a subpath constraint taken from a generating route"""
+    import networkx as nx
+    n = rng.randint(23, 27) if big else rng.randint(5, 11)
+    names = [f"n{i}" for i in range(n)]
+    rng.shuffle(names)
+    D = nx.DiGraph()
+    D.add_nodes_from(names)
+    p = 0.08 if big else 0.3
+    for a in range(n):
+        for b in range(a + 1, min(n, a + (4 if big else n))):
+            if rng.random() < (0.5 if big and b == a + 1 else p):
+                D.add_edge(names[a], names[b])
+    srcs = [v for v in D if D.in_degree(v) == 0 and D.out_degree(v) > 0]
+    flows, routes = {}, []
+    for _ in range(rng.randint(1, 4)):
+        if not srcs:
+            break
+        w = rng.randint(1, 6); v = rng.choice(srcs); r = [v]
+        while D.out_degree(v) > 0:
+            u = rng.choice(sorted(D.successors(v))); flows[(v, u)] = flows.get((v, u), 0) + w; v = u; r.append(v)
+        routes.append(r)
+    G = nx.DiGraph(); G.graph["id"] = "scan"
+    for v in names:
+        if D.degree(v) > 0 and any(v in e for e in flows) or rng.random() < (0.9 if big else 0.4):
+            G.add_node(v)                                        # isolated nodes: legal, nothing to decompose there
+    for (u, v), f in flows.items():
+        G.add_edge(u, v, flow=f)
+    if G.number_of_edges() == 0:
+        return scan_instance(rng, big)
+    kw = dict(flow_attr="flow", weight_type=int, solver_options={"threads": zoo.THREADS})
+    es = list(G.edges())
+    r = rng.random()
+    ign = []
+    if r < 0.25:
+        ign = [e for e in es if rng.random() < 0.25]
+    elif r < 0.5:
+        # every edge touching a stretch of the node order is ignored
+        a = rng.randrange(n); b = min(n, a + rng.randint(1, 22 if big else 4)); st = set(names[a:b])
+        if big and rng.random() < 0.6:                           # a whole shipped-size window of the order networkx reports
+            st = set(list(nx.topological_sort(G))[:21])
+        ign = [e for e in es if e[0] in st or e[1] in st]
+    if 0 < len(ign) < len(es):
+        for e in ign:
+            G.edges[e]["flow"] = rng.randint(0, 9)               # an ignored value is arbitrary
+        kw["elements_to_ignore"] = ign
+    if routes and rng.random() < 0.25:
+        r0 = rng.choice(routes)
+        if len(r0) >= 3:
+            i = rng.randrange(len(r0) - 2); j = rng.randint(i + 2, len(r0) - 1)
+            kw["subpath_constraints"] = [list(zip(r0[i:j], r0[i + 1:j + 1]))]
+    return {"class": "MinFlowDecomp", "G": G, "kwargs": kw, "node": False}
+
+
+def scan_outcome(info, opts, window):
+    """MinFlowDecomp.subgraph_lowerbound_size/_shift are the class attributes that size the scanning windows (20/18 as
+    shipped): set for the run, restored afterwards"""
+    import flowpaths as fp
+    C = fp.MinFlowDecomp
+    old = (C.subgraph_lowerbound_size, C.subgraph_lowerbound_shift)
+    C.subgraph_lowerbound_size, C.subgraph_lowerbound_shift = window
+    try:
+        return outcome(info, opts)
+    finally:
+        C.subgraph_lowerbound_size, C.subgraph_lowerbound_shift = old
+
+
+def scan_windows(ctx, n):
+    """subgraph-scanning lower bound: windows really arise only beyond 21 nodes with the shipped window size, so most cases
+    shrink the window through its class attributes; one in six keeps 20/18 on a graph with 23..27 nodes"""
+    off = {f: False for f in flags_for("MinFlowDecomp")}
+    for i in range(n):
+        rng = ctx.rng("scan", i)
+        big = i % 6 == 5
+        info = scan_instance(rng, big)
+        size = 20 if big else rng.choice([2, 3, 4]); shift = 18 if big else rng.randint(1, size)
+        ref = scan_outcome(info, off, (size, shift))
+        ctx.case(["scan", zoo.describe(info), size, shift], nontrivial=ref[0] == "solved"); ctx.count("E2_option_vectors", "scan_window_cases")
+        ctx.dist("scan-window-shipped-size" if big else "scan-window-reduced-size")
+        for vn, o in (("scan", dict(off, use_subgraph_scanning_lowerbound=True)),
+                      ("scan+greedy", dict(off, use_subgraph_scanning_lowerbound=True, optimize_with_greedy=True)),
+                      ("scan+min-gen-set", dict(off, use_subgraph_scanning_lowerbound=True, use_min_gen_set_lowerbound=True)),
+                      ("scan+guessed-weights", dict(off, use_subgraph_scanning_lowerbound=True, optimize_with_guessed_weights=True)),
+                      ("scan+safe-paths", dict(off, use_subgraph_scanning_lowerbound=True, optimize_with_safe_paths=True))):
+            got = scan_outcome(info, o, (size, shift))
+            ctx.count("E2_option_vectors", "runs")
+            if not same(ref, got):
+                ctx.report(f"MinFlowDecomp: option vector '{vn}' (scanning window {size}, shift {shift}) changes the result: reference "
+                           f"(all optimisations off) {ref}, with options {got}",
+                           {"instance": zoo.describe(info), "options": o, "reference_options": off, "window": [size, shift],
+                            "reference": list(ref), "got": list(got)})
+                break
